@@ -41,8 +41,8 @@ def rand_cfg(rng, kinds=("DE", "DE2", "NM", "PW")):
     return dict(kind=kind, dim=dim, npop=rng.choice([4, 5, 6]),
                 cost=rng.choice(["sphere", "abs", "plateau", "vector", "infwall"]),
                 cons=cons, inplace=rng.random() < 0.5, pen=rng.choice(["none", "abs", "quad"]), box=box,
-                tight=tight, clip=clip, cons_at=rng.choice([0, 0, 0, 2]), box_at=rng.choice([0, 0, 0, 2]),
-                pen_at=rng.choice([0, 0, 3]), steps=rng.choice([3, 5, 7]), x0out=rng.random() < 0.4, maxgen=8,
+                tight=tight, clip=clip, cons_at=rng.choice([0, 0, 0, 1, 2, 3]), box_at=rng.choice([0, 0, 0, 1, 2, 4]),
+                pen_at=rng.choice([0, 0, 1, 2, 3]), via=rng.choice(["set", "set", "step"]), steps=rng.choice([3, 5, 7]), x0out=rng.random() < 0.4, maxgen=8,
                 strategy=rng.choice([None, "Rand1Bin", "Best1Exp", "RandToBest1Bin", "Rand2Exp"]))
 
 
